@@ -1,16 +1,52 @@
-(* C19 -- sessions are isolated (the part a pure model can state; see Sess/Isolation.v). *)
-From Coq Require Import ZArith List Bool.
-From SV Require Import Base.Py Msg.Types Sess.Model Sess.Isolation.
+(* C19 -- sessions are isolated; custom types take effect per session only.
+   Two parts.  (1) Isolation: in the model any interleaving of two sessions' calls gives each exactly what
+   it gets alone - true by construction of a pure model, so it documents the model; whether Python objects
+   share state is decided by the interleaved-vs-alone experiment of the check.  (2) Registration: the
+   per-session lists of known control / filter / credential types are modelled (Sess/Registry.v) and compared
+   with the implementation on every generated history; the theorems below are about that model. *)
+From Coq Require Import ZArith NArith List Bool.
+From SV Require Import Base.Py Gen.Generated Msg.Types Sess.Model Sess.Isolation Sess.Registry Sess.RegistryProofs.
 Import ListNotations.
 
-(* Any interleaving of the call sequences of two sessions gives each session exactly the outcomes,
-   the final state and (inside the state) the pending bytes it gets when run alone.  In the model this
-   holds by construction; the property's content -- no state shared between Python objects, custom
-   type registration per session -- is decided by the interleaved-vs-alone experiment of the check. *)
 Theorem C19_model_sessions_do_not_interact :
   forall d sched a b,
   let '(a', b', os) := run_pair d a b sched in
   run d a (side true sched) = (a', side true os) /\ run d b (side false sched) = (b', side false os).
 Proof. exact interleaving_is_unobservable. Qed.
 
+(* A successful registration makes exactly that session decode the type with the registered class and changes
+   the treatment of no other type. *)
+Theorem C19_registration_takes_effect :
+  forall k i cls r r', reg_add k i cls r = Ok r' ->
+  reg_decodes k i r' = Some cls /\ (forall k2 i2, (k2, i2) <> (k, i) -> reg_decodes k2 i2 r' = reg_decodes k2 i2 r).
+Proof. exact reg_add_effect. Qed.
+
+(* A duplicate registration - same class or another class for the same id, or an id a built-in type has - is
+   rejected with ValueError. *)
+Theorem C19_duplicate_registration_is_rejected :
+  (forall k i cls r, reg_decodes k i r <> None -> reg_add k i cls r = Raise ValueErr) /\
+  (forall k i cls cls2 r r', reg_add k i cls r = Ok r' -> reg_add k i cls2 r' = Raise ValueErr).
+Proof. exact (conj reg_add_taken reg_add_twice). Qed.
+
+(* Whatever is registered later, the class registered first keeps decoding its id ... *)
+Theorem C19_first_registration_wins :
+  forall ops k i cls r, reg_decodes k i r = Some cls -> reg_decodes k i (snd (reg_run ops r)) = Some cls.
+Proof. exact reg_first_wins. Qed.
+
+(* ... and a session that never registered an id that is not built in treats it as an unknown type, whatever else
+   it (or, trivially, any other session) registered. *)
+Theorem C19_unregistered_type_stays_unknown :
+  forall ops k i r, reg_decodes k i r = None -> (forall c, ~ In (k, i, c) ops) -> reg_decodes k i (snd (reg_run ops r)) = None.
+Proof. exact reg_unknown_stays_unknown. Qed.
+
+(* non-vacuity: built-in ids are taken in a fresh session, a new id can be registered *)
+Example C19_example :
+  reg_add RControl (bytes_id oid_paged) [67%N] reg_init = Raise ValueErr /\ reg_add RFilter [7%N] [70%N] reg_init = Raise ValueErr /\
+  reg_add RAuth [0%N] [65%N] reg_init = Raise ValueErr /\ exists r, reg_add RFilter [1024%N] [70%N] reg_init = Ok r.
+Proof. exact builtin_taken. Qed.
+
 Print Assumptions C19_model_sessions_do_not_interact.
+Print Assumptions C19_registration_takes_effect.
+Print Assumptions C19_duplicate_registration_is_rejected.
+Print Assumptions C19_first_registration_wins.
+Print Assumptions C19_unregistered_type_stays_unknown.
